@@ -54,6 +54,8 @@ var noopPkgs = map[string]bool{
 	"log/slog": true,
 	"log":      true,
 	"github.com/zitadel/logging": true,
+	"html/template": true,
+	"github.com/rs/cors": true,
 }
 
 func noopIntrinsic(ex *Exec, fn *ssa.Function, args []Value) Value {
@@ -79,6 +81,9 @@ func (ex *Exec) opaqueZero(t types.Type, from string) Value {
 			return Ptr{Obj: ex.newObj(&Opaque{Kind: "noop"}, u.Elem())}
 		}
 	case *types.Interface:
+		if n, ok := t.(*types.Named); ok && n.Obj().Name() == "error" && n.Obj().Pkg() == nil {
+			return Iface{}
+		}
 		return ex.opaqueIface("noop")
 	}
 	return zeroValue(t)
@@ -86,7 +91,7 @@ func (ex *Exec) opaqueZero(t types.Type, from string) Value {
 
 // allowedBody: library packages whose pure-Go bodies may be executed from SSA.
 var bodyPkgs = map[string]bool{
-	"errors": true, "net/url": true, "slices": true, "maps": true, "sort": true,
+	"errors": true, "fmt": true, "net/url": true, "slices": true, "maps": true, "sort": true,
 	"github.com/muhlemmer/gu": true, "strings": true, "bytes": true, "unicode/utf8": true,
 	"iter": true, "cmp": true, "path": true, "internal/bytealg": false,
 	"net/http": true, "net/textproto": false, "context": false, "strconv": true,
@@ -436,6 +441,9 @@ func init() {
 	})
 	reg("(*encoding/base64.Encoding).DecodeString", func(ex *Exec, fn *ssa.Function, a []Value) Value {
 		s := a[1].(*Term)
+		if v, ok := ex.memo["b64dec:"+s.String()]; ok {
+			return Tuple{v, Iface{}}
+		}
 		if s.Op == "uf" && s.Name == "uf_"+mangle("b64enc") {
 			return Tuple{BytesV{T: s.Args[0]}, Iface{}} // decode(encode(x)) = x
 		}
